@@ -431,7 +431,15 @@ fn real_step(cx: &mut Ctx, data: &[u8], kind: &RealKind) {
         cx.probe("rfs.no_scratch_dir");
         return;
     }
-    let path = dir.join(format!("{}-{}", std::process::id(), COUNTER.fetch_add(1, Ordering::Relaxed)));
+    // unique per process (pid + start time) and per operation
+    static NONCE: std::sync::OnceLock<u128> = std::sync::OnceLock::new();
+    let nonce = *NONCE.get_or_init(|| std::time::SystemTime::now().duration_since(std::time::UNIX_EPOCH).map(|d| d.as_nanos()).unwrap_or(0));
+    let path = dir.join(format!("{}-{:x}-{}", std::process::id(), nonce, COUNTER.fetch_add(1, Ordering::Relaxed)));
+    if std::fs::symlink_metadata(&path).is_ok() {
+        // a leftover of a killed process under the same name: never use it
+        cx.probe("rfs.setup_failed");
+        return;
+    }
     let run = |p: &std::path::Path| guarded(|| ssdeep::hash_file(p));
     let judge = |cx: &mut Ctx, check: &'static str, what: &str, got: Result<Result<RawFuzzyHash, GeneratorOrIOError>, String>| {
         cx.probe("io.real_file_exec");
@@ -486,30 +494,74 @@ fn real_step(cx: &mut Ctx, data: &[u8], kind: &RealKind) {
                 cx.probe("rfs.fifo_empty_payload");
                 return;
             }
-            let made = std::process::Command::new("mkfifo").arg(&path).status().map(|s| s.success()).unwrap_or(false);
+            let made = std::process::Command::new("mkfifo")
+                .arg(&path)
+                .stderr(std::process::Stdio::null())
+                .status()
+                .map(|s| s.success())
+                .unwrap_or(false);
             if !made {
                 cx.probe("rfs.mkfifo_unavailable");
                 return;
             }
             let chunk = (*chunk).max(1) as usize;
             let wpath = path.clone();
-            let writer = std::thread::spawn(move || {
+            // the writer reports whether it could open the pipe at all
+            let writer = std::thread::Builder::new().spawn(move || {
                 // blocks until a reader opens the pipe
-                if let Ok(mut f) = std::fs::OpenOptions::new().write(true).open(&wpath) {
-                    for c in payload.chunks(chunk) {
-                        if f.write_all(c).is_err() {
-                            break;
+                match std::fs::OpenOptions::new().write(true).open(&wpath) {
+                    Ok(mut f) => {
+                        for c in payload.chunks(chunk) {
+                            if f.write_all(c).is_err() {
+                                break; // the reader went away: its business
+                            }
                         }
+                        true
                     }
+                    Err(_) => false,
                 }
+            });
+            let writer = match writer {
+                Ok(w) => w,
+                Err(_) => {
+                    let _ = std::fs::remove_file(&path);
+                    cx.probe("rfs.setup_failed");
+                    return;
+                }
+            };
+            // Watchdog against a harness-side failure (the writer could not open
+            // the pipe, so hash_file's own open would block for ever): after 20 s
+            // it opens the pipe read-write without blocking, which releases every
+            // blocked open, and the execution is then not judged.
+            let done = std::sync::Arc::new(std::sync::atomic::AtomicBool::new(false));
+            let fired = std::sync::Arc::new(std::sync::atomic::AtomicBool::new(false));
+            let (d2, f2, p2) = (done.clone(), fired.clone(), path.clone());
+            let watchdog = std::thread::Builder::new().spawn(move || {
+                for _ in 0..400 {
+                    if d2.load(Ordering::Relaxed) {
+                        return;
+                    }
+                    std::thread::sleep(std::time::Duration::from_millis(50));
+                }
+                f2.store(true, Ordering::Relaxed);
+                let _ = std::fs::OpenOptions::new().read(true).write(true).custom_flags(0o4000).open(&p2);
             });
             cx.probe("fault.fired.real_fifo");
             let got = run(&path);
             // release the writer if hash_file never opened the pipe (O_NONBLOCK: cannot block)
             let unblock = std::fs::OpenOptions::new().read(true).custom_flags(0o4000).open(&path);
-            let _ = writer.join();
+            let writer_opened = writer.join().unwrap_or(false);
+            done.store(true, Ordering::Relaxed);
+            if let Ok(w) = watchdog {
+                let _ = w.join();
+            }
             drop(unblock);
             let _ = std::fs::remove_file(&path);
+            if !writer_opened || fired.load(Ordering::Relaxed) {
+                // the harness, not the library, failed to set the scene
+                cx.probe("rfs.setup_failed");
+                return;
+            }
             judge(cx, "C18.file_mismatch_err", "fifo", got);
         }
         RealKind::Regular => {
